@@ -68,7 +68,7 @@ def follow(f, b, t):
 
 
 def hash_order(res, prog):
-    res.rule('C13.1', 0, floor=3, note='every observation of HashMap/HashSet iteration order must end in an order-insensitive consumer')
+    res.rule('C13.1', 0, floor=2, note='every observation of HashMap/HashSet iteration order must end in an order-insensitive consumer')
     for f, b, t, what in observing_sites(prog):
         res.rule('C13.1', 1)
         key = '%s|%s' % (f.qual, what)
